@@ -53,6 +53,12 @@ RefusedWithoutForce(o) == (o.D # {} /\ ~o.force) => o.refused
 DocumentedClass(o)     == (o.refused /\ o.entry # "cli" /\ o.D # {}) =>
                              IF o.entry = "c" THEN o.code \in {CodeOf(c) : c \in AllowedClasses(o.D)}
                              ELSE o.exc \in AllowedClasses(o.D)
+\* Force-output turns the refusal into a warning and the calculation proceeds (README, GM2CalcConfig[3]).  On the
+\* pinned tree that is so for every catalogued defect except four, for which no calculation is possible or a later
+\* stage refuses: a Yukawa type outside the enumeration, an undecidable basis, MW = 0 and tan(beta) = inf (the
+\* spectrum is not finite).  A refusal there is still a rejection, never a silent result, and is accepted.
+NotLiftable == {"MW0", "TBinf", "badtype", "undecidable"}
+ProceedsUnderForce(o)  == (o.force /\ o.D # {} /\ o.D \cap NotLiftable = {}) => ~o.refused
 NeverSilent(o)         == (o.D # {} /\ ~o.refused) => (o.warned \/ o.problem)
 QuietMeansFinite(o)    == (~o.refused /\ ~o.problem /\ ~o.warned) => o.finite
 ValidAccepted(o)       == o.D = {} => (~o.refused /\ o.finite)
